@@ -230,7 +230,7 @@ def check_g4(g, depth=9, max_runs=96):
         return "fail", f"C10:g4:{v.clause}", v.msg, {}
     entry = M.find_entry(g)
     fac_ref, _ = X.factory_from_cfg(ref_blocks, entry, argspec="")
-    fac_out = X.factory_from_source(info["new_src"], "transformed_g")
+    fac_out = X.factory_from_source(info["new_src"], ast.parse(info["new_src"]).body[0].name)
     r = X.explore(fac_ref, fac_out, (), max_depth=depth, max_runs=max_runs)
     if r["mismatch"]:
         return "fail", "C10:g4:trace", f"output does not reproduce the block trace of the input graph: {r['mismatch']}", {}
